@@ -365,7 +365,3 @@ pub fn site_names() -> Vec<&'static str> {
     }
     v
 }
-
-pub fn site_by_name(name: &str) -> Option<u32> {
-    site::NAMES.iter().find(|(n, _)| *n == name).map(|(_, i)| *i)
-}
